@@ -21,6 +21,11 @@ import time
 import traceback
 from collections import Counter
 
+if __name__ == "__main__":
+    # `python -m vlib.cli`: the checks do `from vlib.cli import Violation, Rec`; without this alias they would get a second
+    # copy of the classes, and a Violation raised through ctx.check() would not be the one their replay() catches
+    sys.modules.setdefault("vlib.cli", sys.modules["__main__"])
+
 ROOT = os.path.dirname(os.path.dirname(os.path.abspath(__file__)))
 KNOWN_FILE = os.path.join(ROOT, "known_findings.json")
 # outputs (evidence/, replays/) go to $VERIF_OUT when set (used by the mutation helper)
